@@ -56,7 +56,9 @@ class Res:
         self.evals += 1
         if sig is not None:
             self.sigs.add(sig if isinstance(sig, str) else repr(sig))
-        if len(self.violations) < 8:
+        # the cap is per mechanism key: a run of violations that belong to one (possibly known) mechanism must never
+        # crowd out a violation of another kind in the same case
+        if sum(1 for v in self.violations if v["mechanism"] == mechanism) < 8:
             self.violations.append({"what": what, "witness": witness or {}, "mechanism": mechanism})
         else:
             self.count("violations_dropped")
